@@ -60,6 +60,7 @@ type AuthReq struct {
 	Body    []byte   `json:"body,omitempty"`
 	Suffix  string   `json:"suffix,omitempty"` // appended to the route path in the request target
 	User    int      `json:"user"`
+	UserMut string   `json:"user_mut,omitempty"`
 	PassMut string   `json:"pass_mut,omitempty"`
 }
 
@@ -289,6 +290,18 @@ func buildAuthReq(routes []AuthRoute, a AuthReq, now time.Time, nonce string) FR
 			pass = strings.ToUpper(pass)
 		case "unknown-user":
 			user += "x"
+		}
+		switch a.UserMut {
+		case "unknown":
+			user = "ghost"
+		case "empty":
+			user = ""
+		case "case":
+			user = strings.ToUpper(user)
+		case "prefix":
+			user = user[:len(user)-1]
+		case "colon":
+			user = user + ":"
 		}
 		val := "Basic " + base64.StdEncoding.EncodeToString([]byte(user+":"+pass))
 		switch a.PassMut {
@@ -560,6 +573,7 @@ func genAuthReq(t *rapid.T, routes []AuthRoute) AuthReq {
 	a.Suffix = rapid.SampledFrom([]string{"", "", "", "/", "/sub", "/../" + fmt.Sprintf("r%d", a.Route), "/./"}).Draw(t, "suffix")
 	a.User = rapid.IntRange(0, 2).Draw(t, "user")
 	a.PassMut = rapid.SampledFrom(c08PassMuts).Draw(t, "pass_mut")
+	a.UserMut = rapid.SampledFrom([]string{"", "", "", "", "unknown", "empty", "case", "prefix", "colon"}).Draw(t, "user_mut")
 	return a
 }
 
